@@ -7,6 +7,12 @@ VERIF = os.path.dirname(os.path.dirname(os.path.abspath(__file__)))
 ALL = [f"C{i:02d}" for i in range(1, 21)]
 
 CLAIMS = {
+    "C02": dict(
+        text="Machine-checked Coq proofs over ALL code byte strings: (tiling) whenever decoding succeeds offsets start at 0, advance by the version's instruction width and end at len(co_code); a cut-off operand is an IndexError; (agreement) for every well-formed code string, any number of EXTENDED_ARG prefixes and any operand size, the model's stream has the offsets, opcodes and folded operands of CPython's own unpacking (2.7 disassemble, 3.6-3.13 _unpack_opargs incl. inline-cache skipping and the 3.10 reset rule), the instructions decoded inside cache entries being exactly those stripped. Table compatibility (HAVE_ARGUMENT/hasarg, EXTENDED_ARG, caches) is a vm_compute obligation over tables regenerated from /repo and from the installed interpreters; tables without an interpreter are proved against the decoding algorithm of their version family. Model tied to get_instructions_bytes by in-Coq correspondence over all 39 tables and the corpus.",
+        note="Trusted: Coq kernel; hand model coq/Model/Instr.v (the two-level generator modelled as one flat loop) + correspondence harness; opcode translator; Spec/Dis.v transcribed from dis.py and validated on every run against the real dis of 2.7, 3.6-3.13. Hypothesis wf_code (no operand-less opcode after EXTENDED_ARG before 3.10, operands < 2^31 from 3.11, cache entries operand-less) is stated and shown to hold of real code. No axioms.",
+        technique="Coq proof by induction (simulation of CPython's unpacking loop) + vm_compute table obligations + in-Coq correspondence",
+        design="7/C02",
+    ),
     "C19": dict(
         text="Machine-checked Coq proofs of the round-trip law for the three freeze() encoders, for EVERY mapping with offsets strictly increasing from 0 and consecutive lines different, offset and line gaps unbounded (continuation entries are induction cases): findlinestarts(decode) of Code3/Code38's table (signed, any decreasing lines), of Code15/Code2's table (lines increasing; reads back under both the unsigned and the signed rule), and of Code310's range table (via co_lines()) returns the mapping. By the C05 theorems the decoders used are CPython's. Encoder models tied to /repo by in-Coq correspondence (dict and list inputs, boundary gaps); model-made tables are additionally decoded by the real 2.7, 3.6-3.10.",
         note="Trusted: Coq kernel; hand model coq/Model/Freeze.v (while-loops as closed forms) + correspondence harness; C05 decoder theorems and spec validation. Hypotheses stated in the theorems: offsets start at 0, lie inside co_code, consecutive lines differ; for 1.5-2.7 lines do not decrease. No axioms.",
